@@ -164,7 +164,14 @@ func (fs *FileSystemOperation) SaveGatewayConfig(content []byte) error {
 }
 
 func (fs *FileSystemOperation) SaveMetricsConfig(content []byte) error {
-	return fs.storeFileOnDisk(environment.GetMetricsConfigFilePath(), content)
+	// The user's metrics file is the one Backup/Restore and CleanMetricsConfigFile cover.
+	// GetMetricsConfigFilePath falls back to the gateway's built-in default file while the
+	// user file does not exist, and that file must not be overwritten by an update.
+	filePath := fs.files[metricsConfigFileKey]
+	if filePath == "" {
+		filePath = environment.GetMetricsConfigFilePath()
+	}
+	return fs.storeFileOnDisk(filePath, content)
 }
 
 func (fs *FileSystemOperation) cleanUpFile(filePath string) error {
